@@ -146,6 +146,10 @@ func impl() {
 				res = implClosures(p)
 				return
 			}
+			if kind == "il" {
+				res = implInterleaved(p)
+				return
+			}
 			if kind != "rt" && kind != "cc" && kind != "tw" {
 				res = "badline"
 				return
@@ -969,7 +973,9 @@ func gen(seed uint64, tier string) {
 			fmt.Fprintln(out)
 		}
 	}
-	genTwins(out, r, tier)
+	// the strata added in wave 2 draw from their own streams, so that the cases of the older strata stay what they were
+	genTwins(out, vproto.NewRng(seed^0x7477), tier)
+	genInterleaved(out, vproto.NewRng(seed^0x696c), tier)
 	names := []string{"longlat", "merc", "lcc", "aea", "eqdc", "tmerc", "utm", "krovak"}
 	for _, name := range names {
 		for i := 0; i < nParam; i++ {
